@@ -484,3 +484,67 @@ def c19(kind, val, base):
     if cs not in dirs:
         return "%s: result stored under %s, the identity of the submitted inputs is %s" % (desc, dirs, cs)
     return None
+
+
+# ------------------------------------------------------------------ C30
+def _sig(wf):
+    from pydra.utils.typing import is_lazy
+    from pydra.utils.general import attrs_values
+
+    win = attrs_values(wf.inputs)
+
+    def v(x):
+        if is_lazy(x):
+            if type(x).__name__ == "LazyInField" and not is_lazy(win.get(x._field)):
+                # a reference to a workflow input that has a value resolves to that value at run time
+                return ("val", win.get(x._field))
+            return ("lazy", type(x).__name__, getattr(x, "_field", None), getattr(getattr(x, "_node", None), "name", None))
+        return ("val", x)
+    nodes = [(n.name, sorted((k, v(val)) for k, val in attrs_values(n._task).items() if k != "function")) for n in wf.nodes]
+    inputs = sorted((k, v(val)) for k, val in attrs_values(wf.inputs).items() if k != "constructor")
+    return (nodes, inputs)
+
+
+LAZY_SETS = [(), ("a",), ("b",), ("a", "b")]
+
+
+def c30(ops):
+    """ops: list of (kind 0-3 construct with LAZY_SETS[kind] / 4 run, a, b). After every operation the result must equal
+    that of a fresh construction / run; earlier constructions must not change afterwards."""
+    from collections import defaultdict
+    from pydra.engine.workflow import Workflow
+    E.reset()
+    R.clear()
+    made = []
+    hist = []
+    for (kind, a, b) in ops:
+        hist.append((kind, a, b))
+        task = D.CW(a=a, b=b)
+        if kind == 4:
+            d = E.scratch()
+            try:
+                out, err = call(task, cache_root=d)
+            finally:
+                E.cleanup(d)
+            if err is not None or out.out != 100 * (a + 1) + b:
+                T.reach()
+                return "history %s: run(a=%d, b=%d) gave %r / %r, expected %d" % (hist, a, b, err, out, 100 * (a + 1) + b)
+            continue
+        lazy = LAZY_SETS[kind]
+        wf = Workflow.construct(task, lazy=lazy)
+        saved = Workflow._constructed_cache
+        Workflow._constructed_cache = defaultdict(lambda: defaultdict(dict))
+        try:
+            fresh = Workflow.construct(D.CW(a=a, b=b), lazy=lazy)
+        finally:
+            Workflow._constructed_cache = saved
+        s, f = _sig(wf), _sig(fresh)
+        if s != f:
+            T.reach()
+            return "history %s: construct(a=%d, b=%d, lazy=%s) differs from a fresh construction:\\n  cached: %s\\n  fresh:  %s" % (hist, a, b, lazy, s, f)
+        made.append((wf, s, (kind, a, b)))
+    T.reach()
+    for wf, s, op in made:
+        if _sig(wf) != s:
+            return "history %s: the workflow constructed by %s changed afterwards: %s -> %s" % (hist, op, s, _sig(wf))
+    return None
